@@ -73,3 +73,12 @@ Definition rets_in (R disc : Q) (h d : nat) (n : node) : Prop :=
 Definition value_in (R disc : Q) (h d : nat) (n : node) : Prop :=
   Forall (fun a => 0 < aN a -> in_pm (vbound R disc h d) (aV a)) (acts n).
 Definition rewards_in (R : Q) (tr : trace) : Prop := Forall (fun e => in_pm R (er e)) tr.
+
+(* ---------------- particles: every particle stored in the child reached by (action i, observation
+   o) was sampled by some event of the observed traces with exactly that action and observation
+   (pool = all events observed so far; ev0 is the padding event of an exhausted trace). ---------- *)
+Definition sampled_by (pool : trace) (i o p : nat) : Prop :=
+  exists e, In e (ev0 :: pool) /\ ea e = i /\ eo e = o /\ es1 e = p.
+Definition particles_local (pool : trace) (n : node) : Prop :=
+  forall i o c, In (o, c) (kids (nth i (acts n) act0)) -> Forall (sampled_by pool i o) (bel c).
+Definition particles_ok (pool : trace) : node -> Prop := tree_all (particles_local pool).
